@@ -68,10 +68,21 @@ def r1_heap_order(ck, F, R="C06-R1"):
     ck.ob(R, "order-terms", [w for w, p in shape] == ["key", "index"], f"Entry::cmp orders by {shape} (expected primary = current key, secondary = source index)", b)
     ck.ob(R, "key-reversed", len(shape) >= 1 and shape[0] == ("key", -1), "the key comparison is reversed exactly once (max-heap pops the smallest key)", b)
     ck.ob(R, "index-reversed", len(shape) >= 2 and shape[1] == ("index", -1), "the source-index tie-break is reversed exactly once (among equal keys the earliest source pops first)", b)
-    for c in F.closures_of(b.path):
-        r = c.expr_at_return().strip()
-        ck.ob(R, f"key-projection/{c.path.split('::')[-1]}", r.k == "field" and r.x["idx"] == 0, "the compared value is the key part of the cursor's current entry", c)
-    ck.exact(R, "closures of Entry::cmp", len(F.closures_of(b.path)), 2, F.config)
+    # the compared values are the key parts (field 0) of each cursor's current entry
+    keycmp = [x for x in e.walk() if x.k == "call" and x.x["path"].rsplit("::", 1)[-1] in ("cmp", "partial_cmp") and _side(x.a[0])[1] == "key"]
+    okp = len(keycmp) == 1
+    if okp:
+        for side in keycmp[0].a:
+            side = side.strip()
+            somes = [y for y in flat_alts(side) if y.k == "agg" and y.x.get("variant") == "Some"]
+            nones = [y for y in flat_alts(side) if y.k == "agg" and y.x.get("variant") == "None"]
+            if somes:
+                okp = okp and len(somes) == 1 and tuple_part(somes[0].a[0]) == {0} and any(z.k == "call" and z.x["path"].endswith("ReaderCursor::<R>::current") for z in somes[0].a[0].walk())
+            else:
+                # not desugared (closure kept as a call argument): look into the closure
+                cl = F.closures_of(b.path)
+                okp = okp and len(cl) == 2 and all(c.expr_at_return().strip().k == "field" and c.expr_at_return().strip().x["idx"] == 0 for c in cl)
+    ck.ob(R, "key-projection", okp, "the compared values are the key parts of each cursor's current entry (None when a cursor has no entry)", b)
     pc = F.body("<merger::Entry<R> as std::cmp::PartialOrd>::partial_cmp")
     r = pc.expr_at_return()
     ck.ob(R, "partial-cmp-delegates", r.k == "agg" and r.x.get("variant") == "Some" and is_call(r.a[0], A("merger_entry_cmp")) and is_arg(r.a[0].a[0], "self"), f"partial_cmp = {r.show()[:80]}", pc)
